@@ -58,4 +58,27 @@ def outputs (domOf : Nat → Bool) : PState → List Kevent → List (Option (Li
   | _, [] => []
   | s, e :: es => let (s', o) := step domOf s e; o :: outputs domOf s' es
 
+/-- `parse_event_list(events)` up to the handler call.  `decodable eid` = "`eid in trace_codes` and
+    `trace_codes[eid] in self.handlers`".  `.ok none` = returns `None` before any handler runs,
+    `.ok (some w)` = `self.handlers[name](self, w)` is called with exactly `w`; `events[0]` of an empty
+    list raises `IndexError` (never reached from `feed`: `C04.window_first_event`, `C04.traces_eq_filter`). -/
+def gate (decodable : Nat → Bool) : List Kevent → Except PyErr (Option (List Kevent))
+  | [] => .error .indexError
+  | x :: xs => .ok (if decodable x.eventid then some (x :: xs) else none)
+
+/-- The gate applied to a sequence of delivered windows: the event lists that reach a handler, in order. -/
+def gateAll (decodable : Nat → Bool) : List (List Kevent) → Except PyErr (List (List Kevent))
+  | [] => .ok []
+  | w :: ws =>
+    match gate decodable w with
+    | .error e => .error e
+    | .ok o =>
+      match gateAll decodable ws with
+      | .error e => .error e
+      | .ok r => .ok (match o with | some v => v :: r | none => r)
+
+/-- `feed_generator` up to the handler calls: the handler invocations caused by a history. -/
+def traces (decodable domOf : Nat → Bool) (h : List Kevent) : Except PyErr (List (List Kevent)) :=
+  gateAll decodable (run domOf h)
+
 end KdVerif.Pairing
